@@ -27,6 +27,7 @@ RULE = (
     "non-trivial = at least two consumers received an item or an item was delivered after a close/cancel; "
     "distinct by case content"
 )
+AMPLIFY = "search"   # on a source change: quick cases + the failing-input search (the thorough generator is minutes / GBs)
 EXHAUSTIVE = {"quick": True, "thorough": True}
 SCOPE = {
     "quick": "ALL send-only schedules (every runnable consumer at every suspension point, to completion) for "
